@@ -217,6 +217,41 @@ def main():
                          "a = t.rows[s1, s2]; b = t.rows[s1].rows[s2]\nassert list(a['name']) == list(b['name']) and list(a['s']) == list(b['s']), (list(a['name']), list(b['name']))\n"
                          "i = t.rows.indices[s1, s2]\nassert list(t['name'][i]) == list(b['name'])\n"
                          "m = t.rows.mask[s1, s2]\nassert [bool(x) for x in m] == [k in set(int(q) for q in i) for k in range(len(t))], (list(m), list(i))\n", "_RowView.__getitem__")
+    rac.section("after-updates", "the lookup tables are warmed by a name selector, then the index column is changed through the table API (a cell "
+                "renamed by NAME, by (name, count), by position, a slice of cells, the whole column): every name-based selector "
+                "(name::count, regexp::count, name spans, lists of names) denotes rows of the CURRENT index column", "3 columns x 6 updates x 13 selectors")
+    UPD = ["t['name', 'a::1'] = 'zz'", "t['name', ('b', 0)] = 'a'", "t['name', 0] = 'b'", "t['name', 1:3] = ['c', 'c']",
+           "t['name'] = list(t['name'])[::-1]", "t.name = [x + 'x' for x in t['name']]"]
+    SELS = ["a::0", "a::1", "a::-1", "b::0", "zz::0", "c::1", ".*::0", ".*::-1", "a.*::1", "[ab]::0>>1", slice("a::0", "b::-1"), slice("b", None),
+            ["a::0", "b::0"]]
+    for col in [("a", "b", "a", "c", "b"), ("a", "a", "b", "a"), ("b", "a", "c", "a", "a", "b")]:
+        for upd in UPD:
+            t = mk(col)
+            try:
+                t.rows.indices["a::0"]
+                t.rows.indices[".*::1"]           # (lookup tables built)
+                exec(upd, dict(t=t))
+            except Exception:     # noqa  (update not applicable to this column)
+                continue
+            newcol = [str(x) for x in t["name"]]
+            vals2 = {"s": [float(x) for x in t["s"]]}
+            for s_ in SELS:
+                exp = expected(newcol, vals2, s_)
+                if exp is None:
+                    continue
+                got = observe(t, s_)
+                rac.case((col, upd, selector_src(s_)), nontrivial=len(exp["indices"]) > 0, sample=dict(column="".join(col), update=upd, selector=selector_src(s_)))
+                if isinstance(s_, str):
+                    pat, cnt, _o = split(s_)
+                    if cnt is not None and pat in newcol and {nm for nm in newcol if nm != pat and re.compile(pat, re.IGNORECASE).fullmatch(nm)}:
+                        continue      # known finding K2 (exact-name shortcut)
+                bad = next((v for v in ("rows", "indices", "mask") if got[v] != exp[v]), None)
+                if bad:
+                    rac.fail(f"after-update {''.join(col)} {upd} {selector_src(s_)}", f"C08 index column {list(col)} after {upd} (now {newcol}): rows.{bad}[{selector_src(s_)}] "
+                             f"gives {got[bad]}, on the current column the selector denotes {exp[bad]}",
+                             PRELUDE + REF_SRC + f"t = mk({list(col)!r})\nt.rows.indices['a::0']; t.rows.indices['.*::1']\n{upd}\ncol = [str(x) for x in t['name']]; vals = {{'s': [float(x) for x in t['s']]}}\n"
+                             f"s = {selector_src(s_)}\ngot, exp = observe(t, s), expected(col, vals, s)\nprint(got); print(exp)\nassert got == exp\n", "Table.__setitem__")
+                    break
     rac.section("many-names", "12..30 distinct names each occurring 1..3 times: 're::count' must come back in table order whatever "
                 "the iteration order of a set of names is; case-insensitive matching; random value ranges", "25 quick / 400 thorough",
                 exhaustive=False)
